@@ -294,12 +294,42 @@ def run(tier):
     # ------------------------------------------------------------------ (e) power
     bfp = c.bf(D + 'radio::TxConfig::adjust_power')
     st = [(bb, si, s) for bb, si, s, root, path in bfp.field_writes() if path == ['pw']]
-    okp = len(st) == 2
+    # pw := min(pw - antenna_gain, cap): as `pw -= gain; pw = min(pw, cap)`, as one min(..) or as a comparison selecting the smaller
+    def is_pw(t):
+        return field_path(peel(t)) == (('param', 1), ['pw'])
+
+    def is_r0(t):
+        t = peel(t)
+        return t[0] in ('Sub', 'SubWithOverflow') and is_pw(t[1]) and peel(t[2]) == ('param', 3)
+
+    def is_cap(t):
+        t = peel(t)
+        return t[0] == 'cast' and peel(t[2]) == ('param', 2)
+    okp = len(st) in (1, 2) and all(x[2].rv.k == 'use' for x in st)
     if okp:
-        v1 = peel(term_of_operand(bfp, st[0][2].rv.ops[0])) if st[0][2].rv.k == 'use' else None
-        v2 = peel(term_of_operand(bfp, st[1][2].rv.ops[0])) if st[1][2].rv.k == 'use' else None
-        okp = v1 is not None and v1[0] == 'Sub' and field_path(v1[1]) == (('param', 1), ['pw']) and v1[2] == ('param', 3) and \
-            is_call(v2, 'cmp::min') and field_path(v2[2][0]) == (('param', 1), ['pw']) and peel(v2[2][1])[0] == 'cast' and peel(v2[2][1])[2] == ('param', 2)
+        first_sub = len(st) == 2 and is_r0(term_of_operand(bfp, st[0][2].rv.ops[0])) and bfp.cfg.dominates(st[0][0], st[1][0])
+        okp = len(st) == 1 or first_sub
+        is_r = is_pw if first_sub else is_r0
+        fin = peel(term_of_operand(bfp, st[-1][2].rv.ops[0]))
+        kinds = set()
+        for v, cs in (rules.value_cases(bfp, fin) if okp else []):
+            v = peel(v)
+            if is_call(v, 'cmp::min') and ((is_r(v[2][0]) and is_cap(v[2][1])) or (is_r(v[2][1]) and is_cap(v[2][0]))):
+                kinds |= {'r', 'cap'}
+                continue
+            # the other candidate: the one this alternative must not exceed
+            others = [x[0][i] for x in cs if isinstance(x[0], tuple) and len(x[0]) == 3 and x[0][0] in ('Lt', 'Le', 'Gt', 'Ge') for i in (1, 2)]
+            if is_r(v):
+                caps = [o for o in others if is_cap(o)]
+                okp = okp and bool(caps) and rules.implies_order(cs, '<=', v, caps[0])
+                kinds.add('r')
+            elif is_cap(v):
+                rs = [o for o in others if is_r(o)]
+                okp = okp and bool(rs) and rules.implies_order(cs, '<=', v, rs[0])
+                kinds.add('cap')
+            else:
+                okp = False
+        okp = okp and kinds == {'r', 'cap'}
     res.require(okp, 'C09:adjust_power:shape', 'adjust_power is not pw = min(pw - antenna_gain, max_power)', bfp.body.path, 'SHAPE(min(pw - gain, cap))', instance='adjust_power: pw = min(pw - antenna_gain, cap)')
     bfc = c.bf(D + 'region::Configuration::create_tx_config')
     aggs = [s for b in bfc.body.blocks if not b.cleanup for s in b.stmts if s.k == 'assign' and s.rv.k == 'agg' and (s.rv.d.get('adt') or '').endswith('radio::TxConfig')]
